@@ -7,6 +7,8 @@ from vp import rt
 from vp.doubles.fakerandom import FakeRandom
 
 import tdda.rexpy.rexpy as rx
+from vp.harness import rexpy_common
+rexpy_common.memoise_categories()
 from tdda.rexpy.rexpy import Extractor, Examples, Size, to_vrles, expand_or_falsify_vrle, cre, RE_FLAGS
 
 P = rt.param({})
@@ -94,7 +96,7 @@ def _plain_ilist(L=None):
 
 
 # ---- K4: PRNG discipline ---------------------------------------------------------------------------
-def k4_prng(do_all: int, dae: int, msa: int, picks: List[int], seeded: bool) -> bool:
+def k4_prng(do_all: int, dae: int, msa: int, picks: List[int], seeded: bool, seed_zero: bool) -> bool:
     """
     pre: 1 <= do_all <= P['k'] and 1 <= dae <= P['k'] and 0 <= msa <= 1 and len(picks) <= 3
     pre: all(0 <= p < 3 for p in picks)
@@ -107,7 +109,7 @@ def k4_prng(do_all: int, dae: int, msa: int, picks: List[int], seeded: bool) -> 
     rx.ilist = _plain_ilist
     try:
         Extractor(['ab', '12', '#'], size=Size(do_all=do_all, do_all_exceptions=dae, max_sampled_attempts=msa),
-                  seed=3 if seeded else None)
+                  seed=(0 if seed_zero else 3) if seeded else None)
     finally:
         rx.random = saved
         rx.ilist = saved_ilist
@@ -127,7 +129,7 @@ def k4_prng(do_all: int, dae: int, msa: int, picks: List[int], seeded: bool) -> 
                 return False
             cur = ('SEEDED', cur[1] + 1)
         elif e[0] == 'seed':
-            if e[1] != 3:
+            if e[1] != (0 if seed_zero else 3):
                 return False
             cur = ('SEEDED', 0)
         elif e[0] == 'setstate':
@@ -137,7 +139,7 @@ def k4_prng(do_all: int, dae: int, msa: int, picks: List[int], seeded: bool) -> 
     return cur == 'CALLER'
 
 
-def lift_k4(do_all, dae, msa, picks, seeded):
+def lift_k4(do_all, dae, msa, picks, seeded, seed_zero=False):
     """public API with the real random module: seeded calls reproducible and leave the global PRNG untouched"""
     import random
     ex = ['ab', '12', '#', 'cd ef', 'A-1']
@@ -149,9 +151,35 @@ def lift_k4(do_all, dae, msa, picks, seeded):
     for pre in (11, 22, 33, 44, 55, 66):
         random.seed(pre)
         before = random.getstate()
-        outs.append(rx.extract(list(ex), seed=3, **kw))
+        outs.append(rx.extract(list(ex), seed=0 if seed_zero else 3, **kw))
         ok = ok and random.getstate() == before
     return ok and all(o == outs[0] for o in outs)
+
+
+# ---- K6: the whole pipeline is order-independent on tiny inputs ---------------------------------------------
+def k6_pipeline_order(ai: List[int], di: List[int]) -> bool:
+    """
+    pre: len(ai) == 3 and len(di) == 3 and all(0 <= i < 2 for i in ai) and all(0 <= i < P['nd'] for i in di)
+    post: __return__
+    """
+    def pick(i, menu):
+        for k in range(len(menu)):
+            if i == k:
+                return menu[k]
+        return menu[-1]
+    ex = [pick(a, ['ab', 'cd']) + '-' + pick(d, ['1', '33', '2']) for a, d in zip(ai, di)]
+    kw = dict(size=Size(max_strings_in_group=P['cap']), variableLengthFrags=bool(P.get('vlf')))
+    base = rx.extract(list(ex), **kw)
+    for perm in ((0, 2, 1), (1, 0, 2), (2, 1, 0)):
+        if rx.extract([ex[i] for i in perm], **kw) != base:
+            return False
+    counts = {}
+    for e in reversed(ex):
+        counts[e] = counts.get(e, 0) + 1
+    if rx.extract(counts, **kw) != base:
+        return False
+    # repeating an example changes nothing, and a second call gives the same list
+    return rx.extract(list(ex) + [ex[0]], **kw) == base and rx.extract(list(ex), **kw) == base
 
 
 # ---- K5: memo transparency ---------------------------------------------------------------------------
@@ -191,8 +219,16 @@ def _obs():
     obs.append(Ob('K4', 'k4_prng', 'with a seed every random.sample is drawn after seed(seed) and before the saved '
                   'state is put back, and the caller\'s state is restored last; without a seed the generator is '
                   'only sampled', 'real Extractor on 3 examples; Size(do_all 1..2, do_all_exceptions 1..2, '
-                  'max_sampled_attempts 0..1) symbolic; <=3 symbolic sample picks; seeded symbolic',
+                  'max_sampled_attempts 0..1) symbolic; <=3 symbolic sample picks; seed None / 0 / 3 symbolic',
                   param={'k': 2}, timeout=300, lift='lift_k4', stubs=['random -> FakeRandom (recording)', 'rexpy.ilist -> plain list (CrossHair cannot extend an array from a generator)']))
+    for cap, vlf, tier in ((1, False, 'quick'), (10, False, 'thorough'), (1, True, 'thorough')):
+        obs.append(Ob('K6', 'k6_pipeline_order', 'end to end on tiny inputs: the list returned by the real extract() is '
+                      'the same for every ordering of the examples, for the frequency-dictionary form, with an '
+                      'example repeated, and on a second call',
+                      '3 examples <ab|cd>-<1|33[|2]> (symbolic indexes, repeats included); '
+                      'Size.max_strings_in_group=%d (so that the per-fragment string cap is inside the bound); '
+                      'variableLengthFrags=%s' % (cap, vlf), param={'cap': cap, 'vlf': vlf, 'nd': 2 if tier == 'quick' else 3},
+                      timeout=600 if tier == 'quick' else 3000, tier=tier))
     obs.append(Ob('K5', 'k5_memo', 'cre(p) returns a pattern object for exactly p with RE_FLAGS, whatever was '
                   'compiled before (shared memo)', 'any sequence of <=4 calls over 3 patterns', timeout=120))
     return obs
